@@ -156,3 +156,157 @@ func movesPosCall(c *Ctx, ci ssa.CallInstruction, movesPos map[*ssa.Function]boo
 	}
 	return false
 }
+
+// SEEKLEAF: SeekIter answers a successor query ("every entry not smaller than the probe"). The probe's own layer says
+// nothing about where its successor is: entries between an absent probe and the next key of an upper node live in the
+// layers below that node. So the descent of a range scan goes to the leaves (or stops on the probe itself), every
+// level it passed contributes the entries to the right of the position taken, and nothing short-cuts that.
+
+func init() {
+	Register(&Rule{ID: "SEEKLEAF", Props: []string{"C10"}, Min: 3,
+		Doc: "in (*Mast).SeekIter (and the private helpers split out of it): (1) the descent is parameterised with targetLayer 0 (it stops early only on the probe itself), not with the probe's layer; " +
+			"(2) every success return after the descent lies inside or after the loop over the search path: no test of the position found or of the layer reached ends the scan without visiting the upper levels; " +
+			"(3) the per-level iteration inside that loop runs only for a path entry whose node differs from the next deeper entry's node (a descent that ends above the leaves records the last node once per remaining level).",
+		Run: runSEEKLEAF})
+}
+
+func inSeekRegion(c *Ctx, fn *ssa.Function) bool {
+	seek := c.P.MastFunc("(*Mast).SeekIter")
+	if seek == nil {
+		return false
+	}
+	for _, f := range regionOf(c, seek) {
+		if f == ir.Outermost(fn) {
+			return true
+		}
+	}
+	return false
+}
+
+func runSEEKLEAF(c *Ctx) {
+	P := c.P
+	seek := c.MustFunc("(*Mast).SeekIter")
+	if seek == nil {
+		return
+	}
+	region := regionOf(c, seek)
+	// (1)
+	lits := 0
+	for _, fn := range region {
+		for _, b := range fn.Blocks {
+			for _, ins := range b.Instrs {
+				st, ok := ins.(*ssa.Store)
+				if !ok {
+					continue
+				}
+				fa, ok := st.Addr.(*ssa.FieldAddr)
+				if !ok || !ir.IsPtrToNamed(fa.X.Type(), "findOptions") || ir.FieldName(fa.X.Type(), fa.Field) != "targetLayer" {
+					continue
+				}
+				if _, isLit := fa.X.(*ssa.Alloc); !isLit {
+					continue
+				}
+				lits++
+				if k, isK := ir.ConstInt(st.Val); isK && k == 0 {
+					c.OK(P.InstrPos(st), "descent of the range scan in "+ir.FuncName(fn), "targetLayer 0: to the leaves, or to the probe itself", false)
+				} else {
+					c.Violation(fn, P.InstrPos(st), "range scan stops its descent at a layer computed from the probe",
+						"the successor of an absent probe is not at the probe's layer: entries between the probe and the next key of the node reached live in the subtree below that position; stopping there skips them, and yields nothing at all when the node has no later key")
+				}
+			}
+		}
+	}
+	// the descent call: the call of SeekIter's region that is handed the address of the options
+	var descent *ssa.Call
+	for _, ci := range CallsOf(seek) {
+		call, ok := ci.(*ssa.Call)
+		if !ok {
+			continue
+		}
+		for _, a := range call.Call.Args {
+			if ir.IsPtrToNamed(a.Type(), "findOptions") {
+				descent = call
+			}
+		}
+	}
+	if lits == 0 || descent == nil {
+		c.AnchorMissing("the findOptions literal and the descent call of SeekIter")
+		return
+	}
+	// (2)
+	ei := ir.ErrorResultIndex(seek.Signature)
+	var cyc []*ssa.BasicBlock
+	for _, b := range seek.Blocks {
+		if inCycle(b) && ir.InstrReaches(descent, b.Instrs[0]) {
+			cyc = append(cyc, b)
+		}
+	}
+	if len(cyc) == 0 {
+		c.Violation(seek, P.InstrPos(descent), "no loop over the search path after the descent", "the levels above the position found are never visited: only the entries of one node are yielded")
+		return
+	}
+	for _, r := range ir.Returns(seek) {
+		if ei < 0 || !ir.IsNilConst(r.Results[ei]) || !ir.InstrReaches(descent, r) {
+			continue
+		}
+		inOrAfter := false
+		for _, h := range cyc {
+			if h.Dominates(r.Block()) {
+				inOrAfter = true
+			}
+		}
+		if inOrAfter {
+			c.OK(P.InstrPos(r), "success return of SeekIter after the descent", "inside or after the loop over the search path", false)
+		} else {
+			c.Violation(seek, P.InstrPos(r), "range scan ends before visiting the search path",
+				"a test after the descent returns success without iterating: when the probe is past the last key of the node reached (or its layer has no node) the later entries of the upper levels are never yielded")
+		}
+	}
+	// (3)
+	n3 := 0
+	for _, b := range cyc {
+		for _, ins := range b.Instrs {
+			call, ok := ins.(*ssa.Call)
+			if !ok {
+				continue
+			}
+			yields := false
+			for _, callee := range c.Facts.Callees(call) {
+				if callee.Pkg != nil && callee.Pkg.Pkg.Path() == ir.MastPath && len(callee.Params) > 0 && isNodePtr(callee.Params[0].Type()) {
+					yields = true
+				}
+			}
+			if !yields {
+				continue
+			}
+			n3++
+			ok3 := ir.FlowFact(call, func(fc ir.Fact) bool {
+				bin, isBin := fc.Cond.(*ssa.BinOp)
+				if !isBin {
+					return false
+				}
+				if isNodePtr(bin.X.Type()) && isNodePtr(bin.Y.Type()) {
+					_, xn := ir.ResolveCell(bin.X).(*ssa.Const)
+					_, yn := ir.ResolveCell(bin.Y).(*ssa.Const)
+					if !xn && !yn && ((bin.Op == token.NEQ && fc.Truth) || (bin.Op == token.EQL && !fc.Truth)) {
+						return strings.Contains(ir.Sym(bin.X), "."+nodeFieldName) && strings.Contains(ir.Sym(bin.Y), "."+nodeFieldName)
+					}
+				}
+				// no deeper entry: i+1 < len(path) refuted
+				if isLenCall(bin.Y) && strings.HasSuffix(ir.Sym(bin.Y), ".path)") {
+					return (bin.Op == token.LSS && !fc.Truth) || (bin.Op == token.GEQ && fc.Truth)
+				}
+				return false
+			}, func(ssa.Instruction) bool { return false })
+			if ok3 {
+				c.OK(P.InstrPos(call), "per-level iteration of the range scan", "only for an entry whose node differs from the next deeper entry's (or the deepest entry)", false)
+			} else {
+				c.Violation(seek, P.InstrPos(call), "a node recorded twice on the search path is iterated twice",
+					"a descent that ends above the leaves (nil link) records the same node for every remaining level; iterating each record yields that node's entries several times")
+			}
+		}
+	}
+	if n3 == 0 {
+		c.AnchorMissing("the per-level iteration call in SeekIter's loop")
+	}
+}
